@@ -49,6 +49,7 @@ Fixpoint has_prefix (pre s : bytes) : bool :=
    any other scalar type is carried through as its proto type number + j5 kind name *)
 Inductive fkind :=
 | KScalar (ptype : N) (j5kind : bytes)
+| KObject (name : bytes)                  (* object:<Name>, a reference to a schema of this package *)
 | KKey (primary : bool) (foreign : option (bytes * bytes)) (tenant : option bytes).
   (* schema.key {entity{primaryKey | foreignKey{package,entity}, tenantKey}} *)
 
@@ -73,7 +74,8 @@ Record entity := mkE {
   e_events : list event;
   e_commands : list command;
   e_summaries : list summary;
-  e_query : option query }.
+  e_query : option query;
+  e_schemas : list (bytes * list ufield) }.   (* `object Name {...}` declared inside the entity block *)
 
 (* ---- what is emitted ------------------------------------------------------- *)
 Inductive otype :=
@@ -138,6 +140,8 @@ Definition of_ufield (u : ufield) : ofield :=
   match uf_kind u with
   | KScalar pt k =>
       mkF10 (uf_name u) (TScalar pt k) false (uf_required u) false false None None None (uf_optional u)
+  | KObject n =>
+      mkF10 (uf_name u) (TObject [] n) false (uf_required u) false false None None None (uf_optional u)
   | KKey primary foreign tenant =>
       mkF10 (uf_name u) (TScalar 9 (bs "key")) false (uf_required u || primary) false primary tenant None
             foreign (uf_optional u)
@@ -339,7 +343,8 @@ Definition expand_with (e : entity) (filters : list bytes) : list component :=
   ++ query_components e
   ++ flat_map (command_components e) (e_commands e)
   ++ publish_components e
-  ++ flat_map (summary_components e) (e_summaries e).
+  ++ flat_map (summary_components e) (e_summaries e)
+  ++ map (fun sc => CMsg 0 (mkMsg (fst sc) None false (map of_ufield (snd sc)) [])) (e_schemas e).
 
 (* the walker errors of run: unknown default status filter, duplicate summary name *)
 Definition expand (e : entity) : outcome (list component) :=
@@ -421,7 +426,8 @@ Definition all_ufields (e : entity) : list ufield :=
   map k_def (e_keys e) ++ e_data e ++ flat_map ev_fields (e_events e)
   ++ flat_map (fun c => flat_map (fun m => md_request m ++ match md_response m with Some r => r | None => [] end)
                                  (c_methods c)) (e_commands e)
-  ++ flat_map s_fields (e_summaries e).
+  ++ flat_map s_fields (e_summaries e)
+  ++ flat_map snd (e_schemas e).
 Definition fields_ok (e : entity) : bool := forallb ufield_ok (all_ufields e).
 
 (* visitServiceMethodNode: every ":name" part of the resolved path must be a request property *)
